@@ -128,3 +128,54 @@ def wick(w, mu, Sigma, forms, letters, out, D):
                 term = xp.einsum(",".join(subs) + "->r" + out, *ops)
                 total = term if total is None else total + term
     return total
+
+
+# ------------------------------------------------------------------ conditional handles (all five linear kinds)
+COND_KINDS = ["full", "diag", "identity", "identity-diag", "nn"]
+COND_CLS = {"full": "ConditionalGaussianPDF", "diag": "ConditionalGaussianDiagPDF", "identity": "ConditionalIdentityGaussianPDF",
+            "identity-diag": "ConditionalIdentityDiagGaussianPDF", "nn": "NNControlGaussianConditional"}
+
+
+class CondHandle:
+    """a linear-Gaussian conditional built through its REAL constructor + its abstract parameters (M, b, S, L, ld)"""
+
+    def __init__(self, w, kind, obj, par, u=None):
+        self.w, self.kind, self.obj, self.par, self.u = w, kind, obj, par, u
+
+    def call(self, name, *args, **kw):
+        if self.kind == "nn":
+            return getattr(self.obj, name)(*args, u=self.u, **kw)
+        return getattr(self.obj, name)(*args, **kw)
+
+    @property
+    def identity(self):
+        return self.par["M"] is None
+
+
+def gen_cond_handle(w, kind, tag, R, Dy, Dx, ctor="Sigma+Lambda+ld"):
+    if kind != "nn":
+        c, par = gen_cond(w, tag, R, Dy, Dx, kind, ctor)
+        return CondHandle(w, kind, c, par)
+    C = mods()["conditional"]
+    g = w.spd(tag, [1], Dy)
+    B = batch(R)
+    Mu = w.arr(f"M{tag}", *B, Dy, Dx)
+    bu = w.arr(f"b{tag}", *B, Dy)
+    u = w.arr(f"u{tag}", *B, "Du")
+    xp = w.xp
+    dy, dx = w.size(Dy), w.size(Dx)
+
+    def control_func(uin):
+        # M(u), b(u) are uninterpreted functions of the rows of u: atoms indexed by the batch of u
+        if uin is u:
+            Mflat = xp.reshape(Mu, (Mu.shape[0], dy * dx))
+            return xp.concatenate([Mflat, bu], axis=1)
+        return xp.zeros((uin.shape[0], dy * dx + dy))
+    obj = C.NNControlGaussianConditional(Sigma=g["S"], num_cond_dim=dx, num_control_dim=w.size("Du"), control_func=control_func)
+    # abstract parameters with the batch of u
+    if R == 1:
+        par = dict(S=g["S"], L=g["L"], ld=g["ld"], M=Mu, b=bu)
+    else:
+        r = w.size(R)
+        par = dict(S=xp.tile(g["S"], (r, 1, 1)), L=xp.tile(g["L"], (r, 1, 1)), ld=xp.tile(g["ld"], (r,)), M=Mu, b=bu)
+    return CondHandle(w, kind, obj, par, u=u)
